@@ -165,20 +165,25 @@ def locate (m, at, direction = None):
     return p.idx, sgn
 # end def locate
 
-def build_api (spec, early_loads = False, late_sources = False, plain_list = False):
+def build_api (spec, early_loads = False, late_sources = False, plain_list = False, ints = False, tags = 'early'):
     """ The model of the spec built with the classes of the library instead
         of the command line, in the order the program uses - or, on
         request, in another order the API permits: distributed-load
         objects created before the geometry is moved and scaled
         (early_loads), loads registered before the sources (late_sources),
         a plain list of objects instead of a Geo_Container (plain_list,
-        only without transformations).
+        only without transformations), whole-number coordinates handed over
+        as python ints (ints), the container's tags computed only after the
+        whole-structure transformations (tags = 'late') or computed once
+        after the first object, the rest appended afterwards (tags = 'split').
     """
     MM  = common.repo ()
+    def num (v):
+        return int (v) if ints and float (v).is_integer () else v
     def obj (g):
         if g ['k'] == 'w':
             p1, p2 = wire_ends (spec, g)
-            return MM.Wire (int (g ['n']), *p1, *p2, g ['r'], tag = g.get ('tag'))
+            return MM.Wire (int (g ['n']), *[num (v) for v in p1], *[num (v) for v in p2], g ['r'], tag = g.get ('tag'))
         if g ['k'] == 'a':
             return MM.Arc (int (g ['n']), g ['radius'], g ['a1'], g ['a2'], g ['r'], tag = g.get ('tag'))
         a = [g ['length'], g ['turn'], g ['r'], g ['rx1'], g ['ry1']]
@@ -191,11 +196,19 @@ def build_api (spec, early_loads = False, late_sources = False, plain_list = Fal
         except ValueError as e:
             raise common.Rejected (str (e))
     geo = MM.Geo_Container ()
+    whole = not any (t [3] is not None for t in spec.get ('tr') or []) and not any (s [1] is not None for s in spec.get ('sc') or [])
+    if not whole or early_loads:
+        tags = 'early'
+    first = True
     for k in 'ahw':
         for g in spec ['geo']:
             if g ['k'] == k:
                 geo.append (guard (lambda: obj (g)))
-    guard (geo.compute_tags)
+                if first and tags == 'split':
+                    guard (geo.compute_tags)
+                first = False
+    if tags == 'early':
+        guard (geo.compute_tags)
     dist = []
     def make_dist ():
         for l in spec.get ('loads') or []:
@@ -216,6 +229,8 @@ def build_api (spec, early_loads = False, late_sources = False, plain_list = Fal
         guard (lambda: getattr (geo, kind) (key, np.array (vec, float), tag))
     for factor, tag in spec.get ('sc') or []:
         guard (lambda: geo.scale (factor, tag))
+    if tags != 'early':
+        guard (geo.compute_tags)
     for g in spec ['geo']:
         if g ['k'] == 'w' and g.get ('taper'):
             w = geo.by_tag [g ['tag']]
